@@ -2,8 +2,8 @@
 N = ("Trusted: Coq 8.16.1 kernel (vm_compute used, no native_compute); no axioms (Print Assumptions of every property theorem says "
      "'Closed under the global context', re-checked on each run); the hand-written Gallina model (Tst/Traph/Traphw/Codec/Storage.v), tied "
      "to /repo by the files regenerated from the source on every run (Consts.v: constants, formats, accessor table; CallGraph.v; "
-     "GenHelpers.v / GenHelpers2.v: the pure helpers incl. their loops; GenStorage.v: the two storage classes - each proved equal to the "
-     "model's definitions) and by this check's correspondence run (extraction: ExtrOcamlBasic only); the translators' Python subset; Python "
+     "GenHelpers.v / GenHelpers2.v: the pure helpers incl. their loops; GenStorage.v: the two storage classes; GenNode.v: reading and "
+     "writing a trie node with its tail blocks - each proved equal to the model's definitions) and by this check's correspondence run (extraction: ExtrOcamlBasic only); the translators' Python subset; Python "
      "semantics (bytes order, struct, re, dict order, file I/O) as modelled. Quantifier of the theorems: every configuration (default rule "
      "+ anchored rules of the family), every history of well-formed requests (wf_op: LRUs non-empty and '|'-terminated, ids non-zero). ")
 REF = ("Refinement: RefFull.run_R proves that after EVERY history the model state is related (R = Rcore /\\ Rlinks) to the abstract "
